@@ -17,21 +17,31 @@
    The AST is the generic tree `sx` mirroring the derived Debug rendering of the Rust AST (variant / struct name
    and the fields in declaration order), which is what the correspondence run compares.
    Definitions only; proofs in proofs/ParserSkelProofs.v. *)
-From Coq Require Import NArith ZArith List Bool String Arith.
+From Coq Require Import NArith ZArith List Bool Arith.
+From Coq.Strings Require Import Byte.
 From GV Require Import model.Utf8 gen.TablesLexer model.Lexer.
 Import ListNotations.
-Local Open Scope string_scope.
 Local Open Scope nat_scope.
 
 Scheme Equality for op.
 
+(* names of Rust types / variants: byte strings with a literal notation *)
+Inductive tag := Tag (bytes : list Byte.byte).
+Definition tag_of_bytes (l : list Byte.byte) : tag := Tag l.
+Definition bytes_of_tag (t : tag) : list Byte.byte := match t with Tag l => l end.
+Declare Scope tag_scope.
+Delimit Scope tag_scope with tag.
+String Notation tag tag_of_bytes bytes_of_tag : tag_scope.
+Local Open Scope tag_scope.
+Definition tag_codes (t : tag) : list N := map Byte.to_N (bytes_of_tag t).
+
 (* ---- generic AST ---- *)
-Inductive sx := SN (tag : string) (args : list sx) | SS (s : str) | SV (l : list sx) | SZ (z : Z).
+Inductive sx := SN (name : tag) (args : list sx) | SS (s : str) | SV (l : list sx) | SZ (z : Z).
 Definition sx_none : sx := SN "None" [].
 Definition sx_some (x : sx) : sx := SN "Some" [x].
 Definition sx_opt (o : option sx) : sx := match o with Some x => sx_some x | None => sx_none end.
 Definition sx_bool (b : bool) : sx := SN (if b then "true" else "false") [].
-Definition sx_unit (tag : string) : sx := SN tag [].
+Definition sx_unit (name : tag) : sx := SN name [].
 
 (* ---- results: outcome + native recursion depth reached ---- *)
 Inductive pres (A : Type) := POk (a : A) | PErr | PUnsup | PPanic | PFuel.
@@ -338,7 +348,7 @@ Definition date_part_parse : P sx :=
   end.
 
 (* the operator table at the head of Expr::parse_infix *)
-Definition bin_op_of (t : token) : option string :=
+Definition bin_op_of (t : token) : option tag :=
   match t with
   | TOp ODoubleEq => Some "Eq" | TOp OEq => Some "Eq" | TOp ONeq => Some "NotEq" | TOp OGt => Some "Gt"
   | TOp OGtEq => Some "GtEq" | TOp OLt => Some "Lt" | TOp OLtEq => Some "LtEq" | TOp OPlus => Some "Plus"
@@ -416,7 +426,6 @@ Section Handlers.
 Variable call : req -> P sx.
 
 Definition expr_parse : P sx := call (RSubexpr 0%N).                  (* <Expr as AstParseable>::parse *)
-Definition boxed (tag : string) (fields : list sx) : P sx := ret (SN tag fields).
 
 (* FunctionArg::parse *)
 Definition function_arg_parse : P sx :=
@@ -519,7 +528,7 @@ Definition parse_ident_expr (v : str) (q : option N) : P sx :=
   | _ => fail
   end.
 
-Definition unary (opname : string) (prec : N) : P sx :=
+Definition unary (opname : tag) (prec : N) : P sx :=
   let* e := call (RSubexpr prec) in ret (SN "UnaryExpr" [sx_unit opname; e]).
 
 (* the keyword arms of Expr::parse_prefix *)
